@@ -127,9 +127,9 @@ def run_resources(rep):
         # generated free helpers (independent of autodrop): the export-side helpers must exist before the harness can call them
         have = 'exports_verif_res_shared_names_free(' in hdr and 'exports_verif_res_shared_pick_free(' in hdr
         if have:
-            C10.check(rep, d, FREE_FUNCS, 'C11:', memory=True, defines=['HAVE_EXPORT_SIDE_FREE'], canary=True, G=GR)
+            C10.check(rep, d, FREE_FUNCS, 'C11:', memory=True, defines=['HAVE_EXPORT_SIDE_FREE'], canary=True, G=GR, canary_id='canary.cbmc.resources')
         else:
-            C10.check(rep, d, FREE_FUNCS[:1], 'C11:', memory=True, defines=[], canary=True, G=GR)
+            C10.check(rep, d, FREE_FUNCS[:1], 'C11:', memory=True, defines=[], canary=True, G=GR, canary_id='canary.cbmc.resources')
             f, oid, what, b = FREE_FUNCS[1]
             if 'exports_verif_res_shared_pick_free(' in hdr:
                 # the variant's helper exists: let CBMC show what it leaves allocated
@@ -153,6 +153,5 @@ def run(rep, tier):
                'accessed out of bounds or still allocated at the end of the harness fails the obligation; the user functions of the harness free their '
                'arguments with the generated *_free helpers, as the documented ownership rules require',
                'not covered: an exported resource\'s destructor, the free helpers of types outside the probe')
-    d = C10.generate(rep)
-    C10.check(rep, d, FUNCS, 'C11:', memory=True, canary=False)
+    C10.run_configs(rep, FUNCS, 'C11:', True)
     run_resources(rep)
